@@ -168,22 +168,13 @@ static void emit_both(const Environment& env, const FuncFrame& frame, bool prolo
   }
 }
 
-static void do_frame(const Cmd& c) {
-  Environment env = make_env(c);
-  Built b;
-  if (!build_frame(c, env, b)) {
-    printf("F %u\n", unsigned(b.err_detail != Error::kOk ? b.err_detail : b.err_frame));
-    return;
-  }
-  FuncFrame& f = b.frame;
-  printf("F 0 I %u %u %u %u %u %u", f.natural_stack_alignment(), f.min_dynamic_alignment(), f.red_zone_size(), f.spill_zone_size(),
-         f.callee_stack_cleanup(), b.func.arg_stack_size());
+// prints " I ... L ... P ... E ..." for a FINALIZED frame
+static void print_frame_answer(unsigned arch, const Environment& env, const FuncDetail& func, const FuncFrame& f) {
+  printf(" I %u %u %u %u %u %u", f.natural_stack_alignment(), f.min_dynamic_alignment(), f.red_zone_size(), f.spill_zone_size(),
+         f.callee_stack_cleanup(), func.arg_stack_size());
   for (unsigned g = 0; g < 4; g++) printf(" %u", unsigned(f.preserved_regs(RegGroup(g))));
   for (unsigned g = 0; g < 4; g++) printf(" %u", unsigned(f.save_restore_reg_size(RegGroup(g))));
   for (unsigned g = 0; g < 4; g++) printf(" %u", unsigned(f.save_restore_alignment(RegGroup(g))));
-  apply_user(c, f);
-  Error fe = f.finalize();
-  if (fe != Error::kOk) { printf(" L ?%u\n", unsigned(fe)); return; }
   printf(" L %u %u %u %u %u", unsigned(f.has_aligned_vec_save_restore()), unsigned(f.has_dynamic_alignment()), f._sp_reg_id, f.sa_reg_id(),
          f.final_stack_alignment());
   for (unsigned g = 0; g < 4; g++) printf(" %u", unsigned(f.dirty_regs(RegGroup(g))));
@@ -192,11 +183,196 @@ static void do_frame(const Cmd& c) {
          f.sa_offset_from_sp() == FuncFrame::kTagInvalidOffset ? -1ll : (long long)f.sa_offset_from_sp(), f.sa_offset_from_sa());
   for (int pe = 0; pe < 2; pe++) {
     std::string text; unsigned n = 0; Error berr = Error::kOk, aerr = Error::kOk;
-    if (c.arch == 2) emit_both<a64::Builder, a64::Assembler>(env, f, pe == 0, text, n, berr, aerr);
+    if (arch == 2) emit_both<a64::Builder, a64::Assembler>(env, f, pe == 0, text, n, berr, aerr);
     else emit_both<x86::Builder, x86::Assembler>(env, f, pe == 0, text, n, berr, aerr);
     printf(" %c %u %u %u %s", pe == 0 ? 'P' : 'E', unsigned(berr), unsigned(aerr), n, text.c_str());
   }
+}
+
+static void do_frame(const Cmd& c) {
+  Environment env = make_env(c);
+  Built b;
+  if (!build_frame(c, env, b)) {
+    printf("F %u\n", unsigned(b.err_detail != Error::kOk ? b.err_detail : b.err_frame));
+    return;
+  }
+  FuncFrame& f = b.frame;
+  apply_user(c, f);
+  Error fe = f.finalize();
+  if (fe != Error::kOk) { printf("F 0 I 0 0 0 0 0 0 0 0 0 0 0 0 0 0 0 0 0 0 L ?%u\n", unsigned(fe)); return; }
+  printf("F 0");
+  print_frame_answer(c.arch, env, b.func, f);
   printf("\n");
+}
+
+// ------------------------------------------------------------------------------------------------------------------
+// Frames the Compiler really produces.   C arch plat cc seed  ->
+//   C <err> | <equivalent frame command: arch plat cc 0 attrs d0 d1 d2 d3 lsize lalign csize calign sareg argstack> | F 0 I ... (as for F)
+//     | H <nInst> <prologMatches> <epilogMatches> <unsavedWrites> <badSpAccesses> <spAccesses> <detail>
+// H: hand-over checks on the node list of the compiled function: the first/last instructions are exactly the emit_prolog /
+// emit_epilog output for the function's frame; every write (per InstAPI::query_rw_info) to a register the convention preserves
+// hits a register of the frame's saved set; every sp-based memory operand of the body lies inside the call area, the local
+// area or the stack-argument area.
+// ------------------------------------------------------------------------------------------------------------------
+struct Rng { uint64_t s; uint64_t next() { s ^= s << 13; s ^= s >> 7; s ^= s << 17; return s; } unsigned below(unsigned n) { return unsigned(next() % n); } };
+
+static std::string inst_text(InstNode* in, Arch arch) {
+  String name;
+  InstAPI::inst_id_to_string(arch, in->inst_id(), InstStringifyOptions::kNone, name);
+  std::string out = name.data();
+  if (in->options() != InstOptions::kNone || in->has_extra_reg()) out += "?opt";
+  for (size_t i = 0; i < in->op_count(); i++) { out += (i == 0 ? " " : ","); out += op_str(in->operands()[i], arch); }
+  return out;
+}
+
+template<typename CompilerT, typename GenT>
+static void compiled_frame(const Cmd& c, GenT&& gen) {
+  Environment env = make_env(c);
+  CodeHolder code;
+  code.init(env);
+  CompilerT cc(&code);
+  FuncNode* fn = nullptr;
+  Error ge = gen(cc, fn);
+  if (ge != Error::kOk || !fn) { printf("C %u gen\n", unsigned(ge)); return; }
+  Error fe = cc.run_passes();
+  if (fe != Error::kOk) { printf("C %u passes\n", unsigned(fe)); return; }
+  const FuncFrame& f = fn->frame();
+  const FuncDetail& fd = fn->detail();
+  unsigned attrs = (f.has_preserved_fp() ? 1 : 0) | (f.has_func_calls() ? 2 : 0) | (f.has_indirect_branch_protection() ? 4 : 0) |
+                   (f.is_avx_enabled() ? 8 : 0) | (f.is_avx512_enabled() ? 16 : 0) | (f.has_mmx_cleanup() ? 32 : 0) |
+                   (f.has_avx_cleanup() ? 64 : 0) | (f.has_avx_auto_cleanup() ? 128 : 0);
+  printf("C 0 | %u %u %u 0 %u %u %u %u %u %u %u %u %u %u %u | F 0", c.arch, c.plat, c.cc, attrs, unsigned(f.dirty_regs(RegGroup(0))),
+         unsigned(f.dirty_regs(RegGroup(1))), unsigned(f.dirty_regs(RegGroup(2))), unsigned(f.dirty_regs(RegGroup(3))), f.local_stack_size(),
+         f.local_stack_alignment(), f.call_stack_size(), f.call_stack_alignment(), f.sa_reg_id(), fd.arg_stack_size());
+  print_frame_answer(c.arch, env, fd, f);
+  // ---- hand-over checks
+  Arch arch = env.arch();
+  std::vector<InstNode*> insts;
+  for (BaseNode* node = fn->next(); node && node != fn->end_node(); node = node->next())
+    if (node->is_inst()) insts.push_back(node->as<InstNode>());
+  std::vector<std::string> pro, epi;
+  {
+    CodeHolder c2; c2.init(env); CompilerT* dummy = nullptr; (void)dummy;
+    if (c.arch == 2) { a64::Builder b(&c2); b.emit_prolog(f); for (BaseNode* n = b.first_node(); n; n = n->next()) if (n->is_inst()) pro.push_back(inst_text(n->as<InstNode>(), arch)); }
+    else { x86::Builder b(&c2); b.emit_prolog(f); for (BaseNode* n = b.first_node(); n; n = n->next()) if (n->is_inst()) pro.push_back(inst_text(n->as<InstNode>(), arch)); }
+  }
+  {
+    CodeHolder c2; c2.init(env);
+    if (c.arch == 2) { a64::Builder b(&c2); b.emit_epilog(f); for (BaseNode* n = b.first_node(); n; n = n->next()) if (n->is_inst()) epi.push_back(inst_text(n->as<InstNode>(), arch)); }
+    else { x86::Builder b(&c2); b.emit_epilog(f); for (BaseNode* n = b.first_node(); n; n = n->next()) if (n->is_inst()) epi.push_back(inst_text(n->as<InstNode>(), arch)); }
+  }
+  bool pm = insts.size() >= pro.size() + epi.size(), em = pm;
+  for (size_t i = 0; pm && i < pro.size(); i++) if (inst_text(insts[i], arch) != pro[i]) pm = false;
+  for (size_t i = 0; em && i < epi.size(); i++) if (inst_text(insts[insts.size() - epi.size() + i], arch) != epi[i]) em = false;
+  unsigned unsaved = 0, badsp = 0, spacc = 0;
+  std::string detail = "-";
+  uint32_t spid = c.arch == 2 ? 31u : 4u;
+  size_t lo = pm ? pro.size() : 0, hi = em ? insts.size() - epi.size() : insts.size();
+  for (size_t i = 0; i < insts.size(); i++) {
+    InstNode* in = insts[i];
+    InstRWInfo rw;
+    BaseInst bi(in->inst_id(), in->options(), in->extra_reg());
+    if (InstAPI::query_rw_info(arch, bi, in->operands().data(), in->op_count(), &rw) == Error::kOk) {
+      for (size_t k = 0; k < in->op_count() && k < rw.op_count(); k++) {
+        const Operand_& op = in->operands()[k];
+        if (op.is_reg() && rw.operand(k).is_write()) {
+          const Reg& r = op.as<Reg>();
+          uint32_t g = uint32_t(r.reg_group());
+          if (g < 4 && r.id() < 32 && !(g == 0 && r.id() == spid) && ((f.preserved_regs(RegGroup(g)) >> r.id()) & 1) && !((f.saved_regs(RegGroup(g)) >> r.id()) & 1)) {
+            if (!unsaved) detail = "unsaved:" + inst_text(in, arch);
+            unsaved++;
+          }
+        }
+      }
+    }
+    if (i >= lo && i < hi) {
+      for (size_t k = 0; k < in->op_count(); k++) {
+        const Operand_& op = in->operands()[k];
+        if (!op.is_mem()) continue;
+        const BaseMem& m = op.as<BaseMem>();
+        if (!m.has_base_reg() || m.base_id() != spid || m.has_index()) continue;
+        spacc++;
+        int64_t off = m.offset();
+        int64_t sz = 1;
+        if (c.arch != 2 && op.as<x86::Mem>().size()) sz = op.as<x86::Mem>().size();
+        bool ok = (off >= 0 && off + sz <= int64_t(f.call_stack_size())) ||
+                  (off >= int64_t(f.local_stack_offset()) && off + sz <= int64_t(f.local_stack_offset()) + int64_t(f.local_stack_size())) ||
+                  (f.sa_offset_from_sp() != FuncFrame::kTagInvalidOffset && off >= int64_t(f.sa_offset_from_sp()) &&
+                   off + sz <= int64_t(f.sa_offset_from_sp()) + int64_t(fd.arg_stack_size()));
+        if (in->inst_id() == (c.arch == 2 ? uint32_t(a64::Inst::kIdAdd) : uint32_t(x86::Inst::kIdLea))) ok = true;   // address computation only
+        if (!ok) { if (!badsp) detail = "badsp:" + inst_text(in, arch); badsp++; }
+      }
+    }
+  }
+  for (char& ch : detail) if (ch == ' ') ch = '_';
+  printf(" | H %u %u %u %u %u %u %s\n", unsigned(insts.size()), unsigned(pm), unsigned(em), unsaved, badsp, spacc, detail.c_str());
+}
+
+static void do_compiled(const Cmd& c) {
+  Rng rng{c.salt * 0x9E3779B97F4A7C15ull + 0x1234567ull};
+  rng.next();
+  unsigned nargs = rng.below(12), ngp = 1 + rng.below(28), nvec = rng.below(24), ncalls = rng.below(3), call_args = rng.below(10);
+  bool fp = rng.below(3) == 0, avx = rng.below(3) == 0, big_local = rng.below(4) == 0;
+  FuncSignature sig;
+  sig.set_call_conv_id(CallConvId(c.cc));
+  sig.set_ret(TypeId::kUIntPtr);
+  for (unsigned i = 0; i < nargs; i++) sig.add_arg(TypeId::kUIntPtr);
+  FuncSignature callee;
+  callee.set_call_conv_id(CallConvId(c.cc));
+  callee.set_ret(TypeId::kUIntPtr);
+  for (unsigned i = 0; i < call_args; i++) callee.add_arg(TypeId::kUIntPtr);
+  if (c.arch == 2) {
+    compiled_frame<a64::Compiler>(c, [&](a64::Compiler& cc, FuncNode*& fn) -> Error {
+      fn = cc.add_func(sig);
+      if (!fn) return Error::kInvalidArgument;
+      if (fp) fn->frame().set_preserved_fp();
+      std::vector<a64::Gp> v;
+      for (unsigned i = 0; i < nargs; i++) { a64::Gp a = cc.new_gp64(); fn->set_arg(i, a); v.push_back(a); }
+      for (unsigned i = 0; i < ngp; i++) { a64::Gp r = cc.new_gp64(); cc.mov(r, uint64_t(i + 1)); v.push_back(r); }
+      std::vector<a64::Vec> x;
+      for (unsigned i = 0; i < nvec; i++) { a64::Vec r = cc.new_vec128(); cc.movi(r.b16(), i & 0xFF); x.push_back(r); }
+      if (big_local) { a64::Mem m = cc.new_stack(64 + 16 * rng.below(40), 16); a64::Gp t = cc.new_gp64(); cc.ldr(t, m); v.push_back(t); }
+      for (unsigned k = 0; k < ncalls; k++) {
+        a64::Gp target = cc.new_gp64(); cc.mov(target, uint64_t(0x1000 + k));
+        InvokeNode* inv = nullptr;
+        Error e = cc.invoke(Out(inv), target, callee);
+        if (e != Error::kOk) return e;
+        for (unsigned i = 0; i < call_args; i++) inv->set_arg(i, v[(i + k) % v.size()]);
+        a64::Gp r = cc.new_gp64(); inv->set_ret(0, r); v.push_back(r);
+      }
+      a64::Gp acc = cc.new_gp64(); cc.mov(acc, 0);
+      for (auto& r : v) cc.add(acc, acc, r);
+      if (!x.empty()) { a64::Vec xa = x[0]; for (size_t i = 1; i < x.size(); i++) cc.add(xa.s4(), xa.s4(), x[i].s4()); a64::Gp t = cc.new_gp64(); cc.mov(t, xa.d(0)); cc.add(acc, acc, t); }
+      cc.ret(acc);
+      return cc.end_func();
+    });
+  }
+  else {
+    compiled_frame<x86::Compiler>(c, [&](x86::Compiler& cc, FuncNode*& fn) -> Error {
+      fn = cc.add_func(sig);
+      if (!fn) return Error::kInvalidArgument;
+      if (fp) fn->frame().set_preserved_fp();
+      if (avx) fn->frame().set_avx_enabled();
+      std::vector<x86::Gp> v;
+      for (unsigned i = 0; i < nargs; i++) { x86::Gp a = cc.new_gpz(); fn->set_arg(i, a); v.push_back(a); }
+      for (unsigned i = 0; i < ngp; i++) { x86::Gp r = cc.new_gpz(); cc.mov(r, i + 1); v.push_back(r); }
+      std::vector<x86::Vec> x;
+      for (unsigned i = 0; i < nvec; i++) { x86::Vec r = cc.new_xmm(); if (avx) cc.vpxor(r, r, r); else cc.pxor(r, r); x.push_back(r); }
+      if (big_local) { x86::Mem m = cc.new_stack(64 + 16 * rng.below(40), rng.below(2) ? 32 : 16); x86::Gp t = cc.new_gpz(); cc.mov(t, m); v.push_back(t); }
+      for (unsigned k = 0; k < ncalls; k++) {
+        InvokeNode* inv = nullptr;
+        Error e = cc.invoke(Out(inv), uint64_t(0x1000 + k), callee);
+        if (e != Error::kOk) return e;
+        for (unsigned i = 0; i < call_args; i++) inv->set_arg(i, v[(i + k) % v.size()]);
+        x86::Gp r = cc.new_gpz(); inv->set_ret(0, r); v.push_back(r);
+      }
+      x86::Gp acc = cc.new_gpz(); cc.xor_(acc, acc);
+      for (auto& r : v) cc.add(acc, r);
+      if (!x.empty()) { x86::Vec xa = x[0]; for (size_t i = 1; i < x.size(); i++) { if (avx) cc.vpaddd(xa, xa, x[i]); else cc.paddd(xa, x[i]); } x86::Gp t = cc.new_gp32(); if (avx) cc.vmovd(t, xa); else cc.movd(t, xa); cc.add(acc.r32(), t); }
+      cc.ret(acc);
+      return cc.end_func();
+    });
+  }
 }
 
 // ------------------------------------------------------------------------------------------------------------------
@@ -398,6 +574,7 @@ int main() {
                    &c.dirty[0], &c.dirty[1], &c.dirty[2], &c.dirty[3], &c.lsize, &c.lalign, &c.csize, &c.calign, &c.sareg, &c.salt);
     if (n < 15) { if (n >= 1) printf("BAD\n"); continue; }
     if (k == 'F') do_frame(c);
+    else if (k == 'C') do_compiled(c);
     else if (k == 'X') run_native(c);
     else printf("BAD\n");
     fflush(stdout);
